@@ -124,9 +124,31 @@ def deps_of(vfile, seen=None):
     return seen
 
 
+def coqproject_text():
+    files = []
+    for sub in ("Base", "Gen", "Model", "Proofs", "Props", "Extract"):
+        d = os.path.join(COQ, "theories", sub)
+        if os.path.isdir(d):
+            files += sorted("theories/%s/%s" % (sub, f) for f in os.listdir(d) if f.endswith(".v"))
+    head = ("-Q theories MechV\n"
+            "-arg -w -arg -notation-overridden,-deprecated-hint-without-locality,-deprecated-syntactic-definition,-deprecated-instance-without-locality\n")
+    return head + "\n".join(files) + "\n"
+
+
 def ensure_makefile():
+    """_CoqProject is derived from the files present under coq/theories (never edited by hand)."""
     mk = os.path.join(COQ, "Makefile")
     cp = os.path.join(COQ, "_CoqProject")
+    txt = coqproject_text()
+    ed = os.path.join(COQ, "theories", "Extract")
+    if os.path.isdir(ed):
+        for f in os.listdir(ed):
+            if f.endswith("x.v"):
+                os.makedirs(os.path.join(COQ, "ocaml", f[:-3]), exist_ok=True)
+    if not os.path.exists(cp) or open(cp).read() != txt:
+        tmp = cp + ".tmp%d" % os.getpid()
+        open(tmp, "w").write(txt)
+        os.replace(tmp, cp)
     if not os.path.exists(mk) or os.path.getmtime(mk) < os.path.getmtime(cp):
         rc, out = run(["coq_makefile", "-f", "_CoqProject", "-o", "Makefile"], cwd=COQ, timeout=120)
         if rc != 0:
